@@ -4,6 +4,8 @@
 import json, os, subprocess, sys, glob
 os.chdir('/verif')
 only = sys.argv[1:]
+if subprocess.run(['git','-C','/repo','status','--porcelain'],capture_output=True,text=True).stdout.strip():
+    sys.exit('REFUSING: /repo has uncommitted changes')
 for d in sorted(glob.glob('seeded/*/')):
     name = d.split('/')[1]
     if only and not any(o in name for o in only):
